@@ -35,7 +35,7 @@ def all_cases(tier):
         shp = mc_lib.shapes(tier)[::2]
         keep = set((a[1], a[2], a[3]) for a in shp)
         stencil = [c for c in stencil if (c["nt"], c["circles"], c["dirbc"]) in keep]
-    cs = stencil + mc_lib.other_cases(tier, Ts, 1)
+    cs = stencil + mc_lib.other_cases(tier, Ts, 1, big_stencil=(tier == "thorough"))
     cs.append(dict(id="threadtable", line="id=threadtable op=threadtable T=1 bound=0 nr_exp=5 ntheta_exp=6 geom=0 prob=0 alpha=1 beta=0 "
                    "kappa=0.3 delta=0.2 maxit=0", op="threadtable", T=1, group="threadtable"))
     return mc_lib.with_T1(cs)
